@@ -53,6 +53,8 @@ class SubCheck:
     shards_quick: int = 1
     shards_thorough: int = 4
     enum: Optional[Callable] = None       # (tier, shard, nshards) -> iterable of cases (exhaustive)
+    machine: Optional[Callable] = None    # (run_case) -> hypothesis RuleBasedStateMachine class (stateful generation)
+    steps: int = 12                       # stateful_step_count for `machine` sub-checks
     exhaustive: bool = False
     max_shrink_s: float = 60.0
 
@@ -181,6 +183,25 @@ def run_subcheck(prop_id, sub, tier, seed, shard, nshards, known_sigs, time_budg
                     complete = False
                     break
             res["exhaustive"] = bool(sub.exhaustive and complete and tier == "thorough")
+        if sub.machine is not None and n > 0:
+            import hypothesis
+            from hypothesis import HealthCheck, Phase, settings
+            from hypothesis.stateful import run_state_machine_as_test
+
+            for rnd in range(3):
+                hseed = derive_seed(seed, prop_id, sub.name, shard, "machine", rnd)
+                M = hypothesis.seed(hseed)(sub.machine(one))
+                try:
+                    run_state_machine_as_test(M, settings=settings(
+                        max_examples=n, stateful_step_count=sub.steps, database=None, deadline=None, derandomize=False,
+                        report_multiple_bugs=False, print_blob=False,
+                        suppress_health_check=[HealthCheck.too_slow, HealthCheck.data_too_large, HealthCheck.large_base_example,
+                                               HealthCheck.filter_too_much],
+                        phases=(Phase.generate, Phase.shrink)))
+                    break
+                except Violation:
+                    f = state["last_fail"]
+                    found_sigs[f["sig"]] = f
         if sub.strategy is not None and n > 0:
             import hypothesis
             from hypothesis import HealthCheck, Phase, given, settings
@@ -222,3 +243,31 @@ def write_replay(verif_dir, prop_id, sub_name, failure, subdir="out/replays"):
                    "kind": failure["kind"], "detail": failure["detail"],
                    "case": failure["case"]}, fh, indent=1, sort_keys=True)
     return path
+
+
+def command_machine(init_strategy, command_strategy, assemble):
+    """Factory for `SubCheck.machine`: a RuleBasedStateMachine that draws an initial configuration, then one command
+    per step, and after every step runs the property's interpreter+model on the history so far (`assemble(init, cmds)`
+    builds the same JSON case the list-based sub-check uses, so a failure replays through the ordinary check)."""
+    def factory(run_case):
+        from hypothesis.stateful import RuleBasedStateMachine, initialize, rule
+
+        class CommandMachine(RuleBasedStateMachine):
+            def __init__(self):
+                super().__init__()
+                self.init = None
+                self.cmds = []
+
+            @initialize(i=init_strategy)
+            def start(self, i):
+                self.init = i
+
+            @rule(c=command_strategy)
+            def step(self, c):
+                if self.init is None:
+                    return
+                self.cmds.append(c)
+                run_case(assemble(self.init, list(self.cmds)))
+
+        return CommandMachine
+    return factory
